@@ -883,3 +883,50 @@ pub fn miniwork(ops: u64, seed: u64) -> Vec<String> {
     }
     bad
 }
+
+/// One libFuzzer input (see /verif/fuzz): returns descriptions of the problems found.
+pub fn fuzz_one(bytes: &[u8]) -> Vec<String> {
+    use std::sync::Once;
+    static INIT: Once = Once::new();
+    INIT.call_once(|| {
+        crate::mon::install_panic_hook();
+        crate::capi::probe_orders();
+    });
+    let mut bad = Vec::new();
+    for (t, tagged) in entry_points() {
+        let res = if tagged { capi::from_tagged_slice(t, bytes) } else { capi::from_slice(t, bytes) };
+        // C13: byte-level decoding == parse then convert
+        if !tagged {
+            let via_value = match capi::ciborium_parse_exact(bytes) {
+                Ok(v) => capi::from_value(t, v).is_ok(),
+                Err(_) => false,
+            };
+            if via_value != res.is_ok() {
+                bad.push(format!("C13 api layers disagree for {} on {}", t.name(), rcbor::hex(bytes)));
+            }
+        }
+        match res {
+            Ok(v) => {
+                for (op, site) in follow_ups(&v, &bytes[..bytes.len().min(5)], &[2], false) {
+                    bad.push(format!("C01 panic in {} at {} on {}", op, site, rcbor::hex(bytes)));
+                }
+                if let Err((class, detail)) = crate::checks::common::fixed_point(t, bytes, tagged) {
+                    let known = matches!(crate::rcbor::neutralise_bignum_indefinite(bytes), Some((nb, true)) if matches!(crate::checks::common::fixed_point(t, &nb, tagged), Ok(Some(_))));
+                    if !known {
+                        bad.push(format!("C07 {} for {}: {}", class, t.name(), detail));
+                    }
+                }
+                // C13: any suffix makes it extraneous data
+                let mut x = bytes.to_vec();
+                x.push(0x00);
+                let r2 = if tagged { capi::from_tagged_slice(t, &x) } else { capi::from_slice(t, &x) };
+                if !matches!(r2, Err(EK::Extraneous)) {
+                    bad.push(format!("C13 suffixed input not rejected with ExtraneousData for {} on {}", t.name(), rcbor::hex(bytes)));
+                }
+            }
+            Err(EK::Panic(s)) => bad.push(format!("C01 panic in decode of {} at {} on {}", t.name(), s, rcbor::hex(bytes))),
+            Err(_) => {}
+        }
+    }
+    bad
+}
